@@ -348,6 +348,11 @@ class FGen:
         used = {v for v, _ in scope}
         qv = [q for q in QVARS if q not in used][0]
         qt = self.qtype()
+        ps = self.ft.get("p_shadow", 0.0)
+        if ps and scope and self.ch.flag(ps):
+            # the quantified variable re-uses the name of an action parameter and shadows it inside the effect
+            qv = self.ch.choice([v for v, _ in scope])
+            scope = [(v, t) for v, t in scope if v != qv]
         w = self.when(scope + [(qv, qt)])
         if w is None:
             return None
